@@ -1232,3 +1232,40 @@ def converted_per_line(chk, repo, rid, qual, conv='convert_to_variant_record', f
                key=f"{f.qual}::{tg}::converted-per-line", path=bad.describe(f.module.relpath) if bad else None, fn=f.qual)
     if not n_inst:
         chk.undecided(rid, f"{f.name}: conversion loop", f.where, f"no loop calling <loop variable>.{conv}() found", key=f"{f.qual}::converted-per-line", fn=f.qual)
+
+
+def loop_own_exits(loop):
+    """break statements whose innermost enclosing loop is `loop`, and return statements anywhere inside it"""
+    out = []
+
+    def rec(node, depth_loop):
+        for ch in ast.iter_child_nodes(node):
+            if isinstance(ch, (ast.FunctionDef, ast.AsyncFunctionDef, ast.Lambda, ast.ClassDef)):
+                continue
+            if isinstance(ch, ast.Return):
+                out.append(ch)
+            elif isinstance(ch, ast.Break) and depth_loop == 0:
+                out.append(ch)
+            if isinstance(ch, (ast.For, ast.While)):
+                for b in ch.body:
+                    rec_stmt(b, depth_loop + 1)
+                for b in ch.orelse:
+                    rec_stmt(b, depth_loop)
+            else:
+                rec(ch, depth_loop)
+
+    def rec_stmt(st, d):
+        if isinstance(st, ast.Return):
+            out.append(st)
+        elif isinstance(st, ast.Break) and d == 0:
+            out.append(st)
+        elif isinstance(st, (ast.For, ast.While)):
+            for b in st.body:
+                rec_stmt(b, d + 1)
+            for b in st.orelse:
+                rec_stmt(b, d)
+        else:
+            rec(st, d)
+    for b in loop.body:
+        rec_stmt(b, 0)
+    return out
